@@ -34,7 +34,8 @@ func tonumber(t *rt.Thread, c *rt.GoCont) (rt.Cont, error) {
 	if !ok {
 		return nil, errors.New("#1 must be a string")
 	}
-	digits := bytes.TrimSpace([]byte(s))
+	// White space is ASCII white space only, as for the Lua lexer
+	digits := bytes.Trim([]byte(s), " \t\n\v\f\r")
 	if len(digits) == 0 {
 		t.Push1(next, rt.NilValue)
 		return next, nil
